@@ -176,6 +176,7 @@ def run(ctx, proofs):
     progs = propeng.programs(ctx.rng, n, ("C14", "C10", "C06"))
     impl = propeng.lift_all(H, progs, [("0", "0")])
     lines, keys = [], []
+    elines = []
     mlines, mkeys = [], []
     status = {}
     failing, shapes = [], set()
@@ -196,6 +197,7 @@ def run(ctx, proofs):
         mkeys.append((i, x[2]))
         lines.append("ssacheck %s %s" % (sexp.show(x[2]), sexp.show(x[3])))
         keys.append(i)
+        elines.append("erasecheck %s %s" % (sexp.show(x[1]), sexp.show(x[2])))
         probs = static_checks(x[2])
         wp, cnt = walk_paths(x[2])
         paths += cnt
@@ -208,6 +210,12 @@ def run(ctx, proofs):
             failing.append({"input": progs[i][1], "impl": "SSA graph: " + sexp.show(x[2])[:1500], "spec": probs[0], "all": probs[:5]})
     outs = common.run_lines(M, [], lines, shards=common.NPROC, timeout=1200) if lines else []
     invalid = [progs[i][1] for i, o in zip(keys, outs) if o != "(valid)"]
+    # the Coq erasure validator SsaErase.erase_check on the real graphs before and after conversion
+    eouts = common.run_lines(M, [], elines, shards=common.NPROC, timeout=1200) if elines else []
+    for i, o in zip(keys, eouts):
+        if o != "(erasure)":
+            failing.append({"input": progs[i][1], "impl": "SsaErase.erase_check answers %s on the graphs before / after SSA conversion" % o,
+                            "spec": "the SSA graph is the original graph with versions added and phi statements prepended"})
     # the construction mirror Model.Ssa.into_ssa vs the implementation, modulo hash-order effects
     mouts = common.run_lines(M, [], mlines, shards=common.NPROC, timeout=1200) if mlines else []
     disagreements = []
@@ -241,7 +249,7 @@ def run(ctx, proofs):
         "rule": "seeded generator lib/proggen.py (shadowed names, arrays updated element-wise, variables assigned in one branch only, nested loops, "
                 "reassigned parameters) + corpus; every SSA graph produced by the real into_ssa is (a) validated by the Coq-verified "
                 "SsaCheck.ssa_check with the implementation's dominator tree as certificate, (b) walked by an independent Python path oracle "
-                "(each block at most 3 times per path), (c) compared with the pre-SSA graph by erasure, (d) compared, after canonical renumbering, with "
+                "(each block at most 3 times per path), (c) compared with the pre-SSA graph by the Coq erasure validator SsaErase.erase_check (and by a Python erasure), (d) compared, after canonical renumbering, with "
                 "the output of the construction mirror Model.Ssa.into_ssa run on the real pre-SSA graph and the real dominance frontiers/tree; distinct-nontrivial = distinct "
                 "(blocks, phi statements, declared versions) shapes among converted graphs",
         "samples": [progs[0][1], progs[len(progs) // 2][1]],
@@ -249,6 +257,7 @@ def run(ctx, proofs):
         "implementation_status": status,
         "graphs_validated": len(outs),
         "graphs_rejected_by_validator": len(invalid),
+        "graphs_accepted_by_erase_check": sum(1 for o in eouts if o == "(erasure)"),
         "construction_mirror_compared": len(mouts),
         "construction_mirror_disagreements": len(disagreements),
         "paths_walked_by_oracle": paths,
